@@ -105,7 +105,10 @@ def gen_history(rng: random.Random, nworkers: int, configs, hist_id: str):
         elif k < 0.94:
             ops.append({"op": "junk", "w": w, "seed": rng.randrange(10 ** 6),
                         "n": rng.randint(1, 8), "keep": rng.choice([0.0, 0.5])})
-        elif k < 0.96:
+        elif k < 0.965:
+            ops.append({"op": "field_sweep", "w": w, "hid": rng.choice(hs),
+                        "seed": rng.randrange(10 ** 6)})
+        elif k < 0.98:
             ops.append({"op": "churn", "w": w, "seed": rng.randrange(10 ** 6),
                         "recipe": rng.randrange(len(recipes)),
                         "n": rng.randint(4, 16)})
@@ -336,6 +339,18 @@ def run_history(fl: Fleet, hist, with_keys=True, stats=None, key_table=None):
                         viol.append({
                             "class": "HARNESS:recipe-builds-differently",
                             "op_index": idx, "detail": "churn sample"})
+            elif kind == "field_sweep":
+                if op["hid"] not in live[w] or op["hid"] in tainted:
+                    continue
+                r = wk.call("field_sweep", hid=op["hid"], seed=op["seed"],
+                            with_keys=with_keys)
+                for k, n in r["counters"].items():
+                    bump(k, n)
+                for sg in r["sigs"]:
+                    bump("mut:" + sg)
+                for v in r["violations"]:
+                    viol.append({"class": v["class"], "op_index": idx,
+                                 "detail": v["detail"]})
             elif kind == "junk":
                 wk.call("junk", seed=op["seed"], n=op["n"], keep=op["keep"])
                 bump("junk_ops")
